@@ -128,6 +128,8 @@ type TxGen struct {
 	Vaults []staking.Address
 	// Profile weights
 	Profile string
+	// foreignListed: node IDs that an entity transaction generated for THIS block adds to another entity's list.
+	foreignListed map[signature.PublicKey]bool
 }
 
 // NewTxGen creates a generator for one block.
@@ -205,6 +207,9 @@ func (g *TxGen) Gen(t *rapid.T) *TxDesc {
 	note := ""
 	kinds := []string{"transfer", "transfer", "burn", "escrow", "escrow", "reclaim", "reclaim", "allow", "withdraw", "amend", "proposal", "vote", "vote",
 		"vaultCreate", "vaultAction", "refresh", "unfreeze", "freshness", "deregister", "foreign"}
+	if g.Profile == "debond" {
+		kinds = append(kinds, "escrow", "escrow", "escrow", "reclaim", "reclaim", "reclaim", "reclaim", "reclaim", "reclaim")
+	}
 	if g.Profile == "hostile" {
 		kinds = append(kinds, "garbage", "garbage", "system", "oversized", "truncated", "newruntime", "newruntime")
 	}
@@ -315,6 +320,27 @@ func (g *TxGen) Gen(t *rapid.T) *TxDesc {
 		a, acct = na, g.V.Account(na.Addr)
 		exp := g.V.Epoch + beacon.EpochTime(rapid.IntRange(1, int(g.W.Spec.MaxNodeExp)).Draw(t, "exp"))
 		nd := g.W.NodeDescriptor(na.Owner, na.Node, exp, node.RoleValidator, true)
+		if g.Profile != "" && rapid.IntRange(0, 2).Draw(t, "changeRoles") == 0 {
+			// an update that changes the node's roles / runtimes (role removal of an active node is rejected after
+			// the stake claims have been recomputed)
+			roles := node.RolesMask(0)
+			if rapid.Bool().Draw(t, "roleVal") {
+				roles |= node.RoleValidator
+			}
+			if g.W.Runtime != nil && rapid.Bool().Draw(t, "roleCompute") {
+				roles |= node.RoleComputeWorker
+			}
+			if rapid.IntRange(0, 3).Draw(t, "roleObserver") == 0 && g.W.Runtime != nil {
+				roles |= node.RoleObserver
+			}
+			if roles != 0 {
+				nd = g.W.NodeDescriptorWithRoles(na.Owner, na.Node, exp, roles)
+				if roles&node.RoleObserver != 0 && len(nd.Runtimes) == 0 {
+					nd.Runtimes = []*node.Runtime{{ID: g.W.Runtime.ID}}
+				}
+				note = "role change"
+			}
+		}
 		sn, err := node.MultiSignNode(na.Node.Signers(), registry.RegisterNodeSignatureContext, nd)
 		if err != nil {
 			panic(err)
